@@ -191,7 +191,9 @@ def run_random(spec, acc, api):
     for t in ['2024-02-30', '2024-13-01', '2024-00-10', '2023-02-29', '2024-01-01T25:00:00Z', '2024-01-01T10:61:00Z', '2024-01-01T10:00:61Z', '2024-01-01T10:00:00',
               '2024-01-01T10:00:00.1234567Z', '2024-1-1', '20240101', '2024-01-01T10:00Z', '2024-01-01 10:00:00Z', '2024-01-01T10:00:00+0100', '2024-01-01T10:00:00+25:00',
               '', 'abc', '2024-01-01T', '2024-01-01Z', '0000-01-01', '2024-01-32T00:00:00Z', '2024-02-30T00:00:00+00:00', '2024-04-31', '2100-02-29', '0000-00-00T00:00:00Z',
-              '9999-12-31T23:59:59-14:00', '0001-01-01T00:00:00+14:00']:
+              '9999-12-31T23:59:59-14:00', '0001-01-01T00:00:00+14:00',
+              # blanks around an otherwise valid text: not the ISO form
+              ' 2024-02-29', '2024-02-29 ', '\t2024-02-29', '2024-03-10T12:30:15Z\t', '\u00a02024-01-01', '  2024-03-10T12:30:15+01:00', '2024-02-29\r', '2024-03-10T12:30:15Z x']:
         got = call(api, 'datetimeISOParse', t)
         acc.case((zone, 'near', t), True)
         if got is not None:
